@@ -64,6 +64,13 @@ CHECKS = {
              "Schedules enumerated from the model are replayed on the real _ProgressBars (instrumented queue/event, no hook) and compared with the model; CLI runs with many chromosomes count result files. "
              "Modelled: atomic steps = flag test, pop(+append), put, set; the GIL / Manager proxies / pool teardown are not modelled.",
         design="DESIGN.md 6 C11"),
+    "C13": dict(
+        technique="Coq proof (invariant of the cache state machine over all histories of edits/touches/runs/interrupted runs, any number of chromosomes, any mtime ties; refresh theorem for every disk) + per-run correspondence on real histories",
+        text="Theorems c13_rerun/refresh/fresh_directory/windows over Model/Cache.v (symbolic versions, the mtime comparisons of the code as freshness relations, atomic writes, tie oracle); pinned reuse rules refuted (c13_legacy_refuted). "
+             "Histories of runs with every flag subset, edits of either annotation and the windows, touches, mtime-preserving edits and backdated caches are executed on the real command line under the launcher; "
+             "every run is abstracted (contents against fresh-directory references, flags from os.path.getmtime) and compared with the model's run: files rewritten, contents afterwards, exit status, every result cell. "
+             "Assumed, named in the evidence: no file carries an mtime later than the clock (a future-dated overlap file defeats the refresh; outside the property's 'touch'); edits stay within the existing chromosomes.",
+        design="DESIGN.md 6 C13"),
     "C15": dict(
         technique="Coq proof (invariant of the load/crash state machine over all histories) + histories with kills and exceptions on real files",
         text="Theorems c15_idempotent/raw_untouched over histories of loads through every constructor interleaved with loads interrupted at any step; legacy behaviours refuted. "
